@@ -276,7 +276,7 @@ def unhex(h):
 
 def decode_req(line):
     p = line.split(" ")
-    if p and p[0] == "eval" and len(p) >= 2:
+    if p and p[0] in ("eval", "evalp") and len(p) >= 2:
         return unhex(p[1])
     return line
 
